@@ -9,6 +9,9 @@ TrapLateResponse == ~(\E k, k2 \in Callers : k # k2 /\ result[k][1] = "err" /\ p
                         /\ \E g \in Gens : k \in pending[g] \/ (\E i \in 1..Len(c2s[g]) : c2s[g][i] = k))
 \* C10: cancellation while the response is in flight (caller already in recv)
 TrapCancelInRecv == ~(\E k \in Callers : pc[K(k)] = "recv.select!" /\ cancelled[k] = FALSE /\ \E g \in Gens : k \in pending[g] /\ \E k2 \in Callers : k2 # k /\ pc[K(k2)] = "rt.lock")
+\* C10: the response has been read and is about to be offered when its caller is cancelled, and another caller is waiting for the mutex
+TrapCancelAtOffer == ~(\E k, k2 \in Callers : \E g \in Gens : k # k2 /\ pc[R(g)] = "rl.offer" /\ rcur[g] = k /\ cancelled[k] /\ tg[K(k)] = g
+                         /\ pc[K(k)] \in {"recv.select", "recv.select!"} /\ pc[K(k2)] = "rt.lock")
 \* C11: the sender loaded the tx channel and teardown swapped it before the select
 TrapSendAfterSwap == ~(\E k \in Callers : pc[K(k)] = "send.select" /\ tg[K(k)] # 0 /\ mtx[tg[K(k)]] = "chan" /\ tx[tg[K(k)]] = "nil")
 \* C11: the write loop is about to report an error to a caller that left
@@ -31,4 +34,10 @@ TrapCloseAfterReply == ~(\E g \in Gens : s2c[g] # <<>> /\ srvClosed[g] /\ pc[R(g
 \* loops of dead generations are not scheduled before the caller moved on (they are independent of the caller)
 FocusFourth == /\ \A g \in Gens : srvClosed[g] => (c2s[g] = <<>> /\ pending[g] # {})
                /\ \A g \in Gens : s2c[g] = <<>>                \* ... and never answers
+\* C11: a request has been transmitted for the fourth time on a client whose connection has served a complete exchange before
+\* (the budget of a call does not depend on the history of the connection it started on)
+TrapFourthTryAfterSuccess == ~(2 \in Callers /\ result[1][1] = "resp" /\ tries[2] = 4 /\ result[2][1] = "err")     \* ... and that one failed too: the call gives up
+FocusAfterSuccess == /\ \A g \in Gens : srvClosed[g] => (c2s[g] = <<>> /\ pending[g] # {} /\ result[1][1] = "resp")
+                     /\ \A g \in Gens : \A i \in 1..Len(s2c[g]) : s2c[g][i] = 1      \* only the first call is answered
+                     /\ (2 \in Callers /\ pc[K(2)] # "none") => result[1][1] = "resp"   \* the calls are sequential
 =============================================================================
